@@ -213,6 +213,14 @@ def parse_job(args):
     except param.EmptyCartesianProduct:
         out["empty"] = True
         return out
+    except ValueError as e:
+        # without any vm restriction the report of an empty product itself trips (join_str of no restrictions raises
+        # "Could not find some of []" while EmptyCartesianProduct is being built): still an empty selection
+        if not vmr and "Could not find some of []" in str(e):
+            out["empty"] = True
+            return out
+        out["error"] = repr(e)[:300]
+        return out
     except Exception as e:
         out["error"] = repr(e)[:300]
         return out
